@@ -54,6 +54,11 @@ Frag ==
   @@ "sibpfx"  :> F(("Fsp.X" :> Lit("42")) @@ ("Fsp.Y" :> Src("Fsp.Y")) @@ ("FspQ.Pub" :> Src("FspQ.Pub")) @@ ("FspQ.hid" :> Src("FspQ.hid")), {}, {})
                                                                                \* :literal Fsp.X 42 makes Fsp member-wise; its sibling FspQ - whose name merely STARTS like it -
                                                                                \* is an imported struct with a hidden member and stays a whole-value copy
+  @@ "twin"    :> F(("Ftwa.In.X" :> Src("Ftwa.In.X")) @@ ("Ftwa.In.Y" :> Src("Ftwa.In.Y")) @@ ("Ftwa.K" :> Src("Ftwa.K"))
+                    @@ ("Ftwb.In.X" :> Lit("42")) @@ ("Ftwb.K" :> Src("Ftwb.K")), {}, {})
+                                                                               \* two members of ONE struct type, both assignable as a whole; :literal Ftwb.In.X 42 and
+                                                                               \* :skip Ftwb.In.Y sit two levels below the SECOND one only: that one is copied member by
+                                                                               \* member (its Y keeps its value), the first one may be copied as a whole
   @@ "skipci"  :> F(None, {}, {})                                            \* :skip fskipci, then :case:off BELOW it on the same method: the last case rule decides
   @@ "skip"    :> F(None, {}, {})                                            \* :skip Fskip - the leaf keeps its value
   @@ "nomatch" :> F(None, {}, {})                                            \* no source - the leaf keeps its value
